@@ -92,8 +92,7 @@ def run(prog: Program, res: Result) -> None:
         elif isinstance(st, ast.AugAssign) and dotted(st.target) == "self._current_cycle":
             idx["inc"].append(i)
     order_ok = all(len(v) == 1 for v in idx.values()) and \
-        idx["step"][0] < idx["snap"][0] < idx["check"][0] < idx["brk"][0] < idx["inc"][0] and idx["inc"][0] == len(body) - 1 \
-        and idx["step"][0] == 0
+        idx["step"][0] < idx["snap"][0] < idx["check"][0] < idx["brk"][0] < idx["inc"][0]
     res.ob(order_ok, f"{M.relpath}:{loop.lineno} loop: " + ", ".join(f"{k}@{v}" for k, v in idx.items()),
            construct_key(prog, loop, M))
     if not order_ok:
@@ -128,7 +127,11 @@ def run(prog: Program, res: Result) -> None:
             continue
         if isinstance(st, ast.Assign) and isinstance(st.value, ast.Call) and dotted(st.value.func) == "special_agents":
             continue
-        bad("R1-loop-order", st, f"unexpected statement in the main loop: `{norm(st, 70)}`")
+        # any other statement is tolerated (it cannot jump: checked above) unless it rebinds the stop decision
+        if has_stop_var and any(isinstance(n, ast.Name) and n.id == has_stop_var and isinstance(n.ctx, ast.Store) for n in ast.walk(st)):
+            bad("R1-break-iff-stop", st, f"`{norm(st, 70)}` rebinds the stop decision between __error_check__ and the break")
+        elif any(isinstance(n, ast.Call) and dotted(n.func) in ("self.optimization_step", "self.__error_check__") for n in ast.walk(st)):
+            bad("R1-loop-order", st, f"`{norm(st, 70)}` runs a second step / error check inside one iteration")
     # one snapshot before the loop, after _init_population
     pre = opt.node.body[:opt.node.body.index(loop)]
     pre_snap = [st for st in pre if is_snapshot(st)]
@@ -331,6 +334,7 @@ VARIANTS = [
     V("patience-validator-zero-ok", _M, "        if v is not None and v < 1:", "        if v is not None and v < 0:", "C04.R5"),
     V("break-on-error-zero", _A, "            if has_to_stop:\n                break\n", "            if has_to_stop or error == 0:\n                break\n", "C04.R1"),
     V("double-step", _A, "            self.optimization_step()\n", "            self.optimization_step()\n            self.optimization_step()\n", "C04.R1"),
+    V("twin-extra-bookkeeping-statement", _A, "            self._current_cycle += 1\n", "            self._n_evaluated = len(self._population)\n            self._current_cycle += 1\n", None),
     V("counter-starts-at-zero", _A, "        evolution: list[Population] = []\n        self._current_cycle = 1\n", "        evolution: list[Population] = []\n        self._current_cycle = 0\n", "C04.R2"),
     # twins
     V("twin-early-return-style", _A,
